@@ -918,6 +918,7 @@ def replay(ck: Check, path: str) -> int:
     data = json.loads(open(path).read())
     inp = data.get("input") or {}
     camp = ck.campaign("replay")
+    ck.findings = []  # a replay shows the failure even when it is a recorded finding
     if "sdl" in inp:
         oracle_case(ck, camp, inp["sdl"], inp["model"], inp.get("flags", {}), inp.get("scalar_map", {}), inp.get("seed", 1))
     for f in ck.failures:
